@@ -117,6 +117,10 @@ def halo_configs(tier):
         # 7x5 interior, dx=10, dy=7, halo 15 -> pads (1,2): the PADDED grid is square (9x9) while the interior is not,
         # so the transposed problem reuses the same padded shape with another interior
         yield {"prof": p, "grid": (7, 5), "dom": (70.0, 35.0), "halo": 15.0, "modes": [64, 64], "footprint": fp}
+        # 7x3 cells over 80 m x 80 m, halo 80 m = exactly 7 dx = exactly 3 dy (also the default halo): both pad widths sit on a
+        # rounding knife-edge (int(80/dx) = 7, 80 // dx = 6); the transposed problem must pad the transposed way
+        yield {"prof": p, "grid": (7, 3), "dom": (80.0, 80.0), "halo": 80.0, "modes": [64, 64], "footprint": fp}
+        yield {"prof": p, "grid": (7, 3), "dom": (80.0, 80.0), "halo": None, "modes": [64, 64], "footprint": fp}
         # dx=2.5, dy=7.5, halo 8.9 -> padded offsets 7.5 m (fractional) with whole-metre tower coordinates
         yield {"prof": p, "grid": (7, 5), "dom": (17.5, 37.5), "halo": 8.9, "modes": [64, 64], "footprint": fp}
 
@@ -158,7 +162,7 @@ def case_halo_symmetry(case):
         if not e <= tol:
             v.append({"sub": label, "sig": "%s/%s" % (label, "footprint" if fp else "dispersion"), "msg": "%s: deviation %.2e of field maximum (tol %.0e); config %s" % (what, e, tol, core.canon(case))})
 
-    towers = [(2, 1), (nx - 2, ny - 1), (4, 2)] if fp else [(0, 0)]
+    towers = [(2, 1), (nx - 2, ny - 1), (min(4, nx - 1), min(2, ny - 1))] if fp else [(0, 0)]
     for (ti, tj) in towers:
         mp = (ti * dx, tj * dy) if fp else (0.0, 0.0)
         base = S(q, prof, dom, modes, mp)
@@ -175,6 +179,46 @@ def case_halo_symmetry(case):
     return {"v": v[:6], "nt": True, "n": cnt[0], "obs": {"worst_rel_err": worst[0], "padded": [nxe, nye]}}
 
 
+def case_interface_similarity(case):
+    """length similarity through the configuration-driven interface, on ONE configuration object that is rescaled in place
+    between the runs (domain, tower height and position, roughness length, Obukhov length; options the user never set
+    stay unset), compared with the run before the rescaling"""
+    import warnings
+
+    from bldfm.config_parser import parse_config_dict
+    from bldfm.interface import run_bldfm_single
+
+    s = case["scale"]
+    cfg = parse_config_dict({
+        "domain": {"nx": 8, "ny": 6, "xmax": 80.0, "ymax": 90.0, "nz": 4, "modes": [8, 6], **({"halo": case["halo"]} if case["halo"] is not None else {})},
+        "towers": [{"name": "t", "lat": 0.0, "lon": 0.0, "z_m": 5.0}],
+        "met": {"z0": 0.05, "mol": -50.0, "wind_speed": 3.0, "wind_dir": 200.0},
+        "solver": {"footprint": case["footprint"], "precision": "double", "closure": "MOST"},
+    })
+    cfg.towers[0].x, cfg.towers[0].y = 30.0, 45.0
+    with warnings.catch_warnings():
+        warnings.simplefilter("ignore")
+        r1 = run_bldfm_single(cfg, cfg.towers[0])
+        # the user rescales what the user set
+        cfg.domain.xmax *= s
+        cfg.domain.ymax *= s
+        if case["halo"] is not None:
+            cfg.domain.halo *= s
+        cfg.towers[0].z_m *= s
+        cfg.towers[0].x *= s
+        cfg.towers[0].y *= s
+        cfg.met.z0 *= s
+        cfg.met.mol *= s
+        r2 = run_bldfm_single(cfg, cfg.towers[0])
+    v = []
+    # K = kappa u* z scales with the lengths, u* and the wind do not: flux and concentration are unchanged
+    for nm in ("flx", "conc"):
+        e = sl.relerr(r2[nm], r1[nm], max(np.abs(r1[nm]).max(), 1e-300))
+        if not e <= 1e-8:
+            v.append({"sub": "interface-similarity", "sig": "interface-similarity/%s" % nm, "msg": "%s changes by %.2e of its maximum when one configuration object is rescaled in place by %g and run again; case %s" % (nm, e, s, core.canon(case))})
+    return {"v": v, "nt": True, "n": 2}
+
+
 def run(ctx):
     os.environ["VERIF_SEED"] = str(ctx.seed)
     core.warm_numba()
@@ -184,3 +228,4 @@ def run(ctx):
     )
     ctx.run_cases(case_symmetry, configs(ctx.tier), sub="symmetry", chunksize=1)
     ctx.run_cases(case_halo_symmetry, halo_configs(ctx.tier), sub="symmetry-with-halo", chunksize=1)
+    ctx.run_cases(case_interface_similarity, [{"scale": s, "halo": h, "footprint": fp} for s, h, fp in itertools.product((0.5, 8.0), (None, 20.0, 0.0), (True, False))], sub="interface-similarity")
